@@ -4,6 +4,7 @@ import IbicusModel.Props.C02
 import IbicusModel.Lemmas.GenDebiasers
 import IbicusModel.Lemmas.GenIsimipSteps
 import IbicusModel.Lemmas.GenDebWin
+import IbicusModel.Lemmas.GenDebWinSdm
 -- property theorems
 #print axioms Props.C02.ls_add_shift
 #print axioms Props.C02.ls_mult_scale
@@ -130,3 +131,14 @@ import IbicusModel.Lemmas.GenDebWin
 #print axioms Lemmas.GenDebWin.sdm_absolute_denote
 #print axioms Lemmas.GenDebWin.cdft_steps_denote
 #print axioms Lemmas.GenDebWin.cdft_steps_denote_methods
+-- tier A (DebWin, continued): SDM relative denotes Model.Debiasers.sdmRelative; CDFt steps for a single draw list
+#print axioms Lemmas.GenDebWinSdm.runBinds_append
+#print axioms Lemmas.GenDebWinSdm.sdm_rel_core
+#print axioms Lemmas.GenDebWinSdm.expected_int
+#print axioms Lemmas.GenDebWinSdm.sdmRelExpected_le
+#print axioms Lemmas.GenDebWinSdm.sdm_relative_denote
+#print axioms Lemmas.GenDebWinSdm.sdm_relative_denote_raises
+#print axioms Lemmas.GenDebWinSdm.sdm_relative_denote_ok
+#print axioms Lemmas.GenDebWinSdm.sdm_relative_no_hidden_raise
+#print axioms Lemmas.GenDebWinSdm.cdft_steps_denote_single
+#print axioms Lemmas.GenDebWinSdm.cdft_steps_denote_methods_single
